@@ -1822,6 +1822,11 @@ class ForAll(QuantifiedConditional):
 
         solution_set = None
 
+        # the quantifier ranges over all values of its variable, a value that was bound outside (e.g., a witness of a
+        # preceding exists over the same variable) is not in its scope.
+        outer_sources = sources
+        sources = {k: v for k, v in sources.items() if k != self.variable._id_}
+
         for var_val in self.variable._evaluate__(sources, parent=self):
             if solution_set is None:
                 solution_set = self.get_all_candidate_solutions(var_val.bindings)
@@ -1837,7 +1842,8 @@ class ForAll(QuantifiedConditional):
 
         # Yield the remaining bindings (non-universal) merged with the incoming sources
         yield from [
-            OperationResult({**sources, **sol}, False, self) for sol in solution_set
+            OperationResult({**outer_sources, **sol}, False, self)
+            for sol in solution_set
         ]
 
     def get_all_candidate_solutions(self, sources: Dict[int, HashedValue]):
@@ -1879,6 +1885,8 @@ class Exists(QuantifiedConditional):
         sources = sources or {}
         self._eval_parent_ = parent
         seen_var_values = []
+        # the quantifier looks for a value of its variable itself, a value that was bound outside is not in its scope.
+        sources = {k: v for k, v in sources.items() if k != self.variable._id_}
         for val in self.condition._evaluate__(sources, parent=self):
             if val.is_false:
                 continue
